@@ -192,36 +192,31 @@ def hEnableRule (cfg : CronCfg) (c : Ctx) (id : String) (enable : Bool) (now : I
     let _ ← hSetProp cfg id "disabled" (.bool true) now
     pure ()
 
-/-- `State.Clear`: IndexedState runs the rem hook for every id (the first failing `Get` aborts the `Clear`),
-LinearState runs no hook -/
+/-- `State.Clear`: both states run the rem hook for every id (the first failing `Get` aborts the `Clear`);
+LinearState ran no hook until the repair of finding C15-linear-clear -/
 def hClearState (cfg : CronCfg) (now : Int) : HM Unit := fun h =>
   let l := h.loc
-  match l.st.kind with
-  | .linear =>
-    let tags := (absLoc l).filter (fun p => p.2.sched != "") |>.map (fun p => (keyOf cfg l.name p.1.2, "linear-clear"))
-    ({ h with loc := { l with st := l.st.clear }, log := h.log ++ [.clear l.name], tags := h.tags ++ tags }, .ok ())
-  | .indexed =>
-    let rec go (ids : List String) (h : HS) : HS × Except LErr Unit :=
-      match ids with
-      | [] => (h, .ok ())
-      | id :: rest =>
-        if !(amHas h.loc.st.facts id) then go rest h else
-        let before := h.loc.st.facts
-        let (s1, g) := h.loc.st.get id now
-        let h1 := logGone cfg { h with loc := { h.loc with st := s1 } } before "" now
-        match g with
+  let rec go (ids : List String) (h : HS) : HS × Except LErr Unit :=
+    match ids with
+    | [] => (h, .ok ())
+    | id :: rest =>
+      if !(amHas h.loc.st.facts id) then go rest h else
+      let before := h.loc.st.facts
+      let (s1, g) := h.loc.st.get id now
+      let h1 := logGone cfg { h with loc := { h.loc with st := s1 } } before "" now
+      match g with
+      | .error e => ({ h1 with odd := true }, .error e)
+      | .ok fact =>
+        match getScheduleObj fact with
         | .error e => ({ h1 with odd := true }, .error e)
-        | .ok fact =>
-          match getScheduleObj fact with
-          | .error e => ({ h1 with odd := true }, .error e)
-          | .ok sched =>
-            go rest { h1 with reg := if sched == "" then h1.reg else aErase h1.reg (keyOf cfg h1.loc.name id),
-                              calls := if sched == "" then h1.calls else h1.calls ++ [["rem", h1.loc.name, id]] }
-    match go (l.st.facts.map (·.1)) h with
-    | (h1, .error e) => (h1, .error e)
-    | (h1, .ok _) =>
-      -- the registry as it was is restored in the log's view by the single `clear` event
-      ({ h1 with loc := { h1.loc with st := h1.loc.st.clear }, log := h1.log ++ [.clear l.name] }, .ok ())
+        | .ok sched =>
+          go rest { h1 with reg := if sched == "" then h1.reg else aErase h1.reg (keyOf cfg h1.loc.name id),
+                            calls := if sched == "" then h1.calls else h1.calls ++ [["rem", h1.loc.name, id]] }
+  match go (l.st.facts.map (·.1)) h with
+  | (h1, .error e) => (h1, .error e)
+  | (h1, .ok _) =>
+    -- the registry as it was is restored in the log's view by the single `clear` event
+    ({ h1 with loc := { h1.loc with st := h1.loc.st.clear }, log := h1.log ++ [.clear l.name] }, .ok ())
 
 def hClear (cfg : CronCfg) (c : Ctx) (now : Int) : HM Unit := do
   HM.liftL cfg now (runGuards c now (guardsOf "Clear")); hClearState cfg now
